@@ -156,10 +156,24 @@ func c07(r *core.Run) {
 			if len(c.Args) > 0 {
 				m.batch = c.Args[0]
 			}
+			if c.IsInvoke() && strings.HasSuffix(c.Value.Type().String(), "pebble.Writer") {
+				// a write through the Writer interface: what it really writes to is what the caller handed in
+				m.batch = c.Value
+				target := c.Value
+				if hb != nil {
+					target = hb.up(target)
+				}
+				kind := "Batch"
+				if strings.HasSuffix(core.Unwrap(target).Type().String(), "pebble.DB") {
+					kind = "DB"
+				}
+				name = "(*" + pebblePath + "." + kind + ")." + c.Method.Name()
+			}
 			if hb != nil {
 				m.where = hb.top
 				m.batch = hb.up(m.batch)
 			}
+			m.batch = core.Unwrap(m.batch)
 			switch {
 			case strings.HasSuffix(name, ".Batch).Commit"):
 				commits = append(commits, m)
